@@ -1097,6 +1097,65 @@ fn all_election_scenarios() -> Vec<String> {
     out
 }
 
+// ------------------------------------------------------------------ family: oplogdisk (C16: what a kill leaves on disk after any sequence of logged operations)
+fn scenario_oplogdisk(sc: &str) -> Result<Violations, String> {
+    // sc = events separated by '.', run through the REAL replication thread (oplog writer) of a secondary:
+    //   n<k>  a write of NEW key k<k> to the known database       o<k>  a write of key k<k> to the known database (new or known, as it comes)
+    //   g<k>  a write of key k<k> to a database this node does NOT have (the record is refused)      r<k>  a remove of key k<k> in the known database
+    //   S     snapshot_keys (the periodic save of the key map)
+    // after every event the node is "killed": the flag byte, the key map file and the oplog are read back the way a restart does, and the crash invariant is judged
+    use nundb::disk_ops::{is_oplog_valid, load_keys_map_from_disk, read_operations_since, snapshot_keys, Oplog};
+    use nundb::replication_ops::{replicate_message_with_sender, start_replication_thread};
+    let dir = std::env::var("NUN_DBS_DIR").map_err(|_| "NUN_DBS_DIR not set")?;
+    Oplog::clean_op_log_metadata_files();
+    let _ = std::fs::remove_file(format!("{}/keys-nun.keys", dir));
+    let (sender, _receiver): (Sender<String>, Receiver<String>) = channel(1000);
+    let dbs = Arc::new(Databases::new("".into(), "".into(), "".into(), "".into(), sender.clone(), sender.clone(), HashMap::new(), 1, false));
+    dbs.node_state.swap(ClusterRole::Secoundary as usize, std::sync::atomic::Ordering::Relaxed);
+    dbs.add_database(Database::new("kd".into(), DatabaseMataData::new(dbs.next_db_id(), ConsensuStrategy::Newer)));
+    snapshot_keys(&dbs);
+    let mut v: Violations = vec![];
+    let judge = |v: &mut Violations, dbs: &Arc<Databases>| {
+        let keys_on_disk = load_keys_map_from_disk();
+        if is_oplog_valid() {
+            let id_keys: HashMap<u64, String> = keys_on_disk.iter().map(|(name, id)| (*id, name.clone())).collect();
+            let intent: HashMap<u64, String> = dbs.id_keys_map.read().unwrap().clone();
+            for record in read_operations_since(0).values() {
+                if matches!(record.opp, ReplicateOpp::Update | ReplicateOpp::Remove) {
+                    let ok = id_keys.get(&record.key).is_some() && id_keys.get(&record.key) == intent.get(&record.key);
+                    for l in ["C16.log-record-after-invalidation", "C16.new-key-invalidates-before-it-is-logged", "C16.keymap-written-before-flag", "C16.kept-log-decodes"] { chk(v, l, ok); }
+                }
+            }
+        }
+    };
+    for ev in sc.split('.').filter(|e| !e.is_empty()) {
+        let ok = catch_unwind(AssertUnwindSafe(|| {
+            if ev == "S" { snapshot_keys(&dbs); return; }
+            let key = format!("k{}", &ev[1..]);
+            let msg = match &ev[0..1] { "n" | "o" => format!("replicate kd {} -1 v", key), "g" => format!("replicate ghostdb {} -1 v", key), _ => format!("replicate-remove kd {}", key) };
+            let (mut tx, rx): (Sender<String>, Receiver<String>) = channel(100);
+            replicate_message_with_sender(&tx, msg).unwrap();
+            tx.try_send("exit".to_string()).unwrap();
+            futures::executor::block_on(start_replication_thread(rx, dbs.clone()));
+        }));
+        if ok.is_err() { v.push("C10.safety".into()); return Ok(v); }
+        judge(&mut v, &dbs);
+    }
+    Oplog::clean_op_log_metadata_files();
+    Ok(v)
+}
+fn all_oplogdisk_scenarios() -> Vec<String> {
+    let evs = ["n1", "n2", "o1", "g1", "g2", "r1", "S"];
+    let mut out = vec![];
+    fn rec(evs: &[&str], cur: &mut Vec<String>, depth: usize, out: &mut Vec<String>) {
+        if !cur.is_empty() { out.push(cur.join(".")); }
+        if depth == 0 { return; }
+        for e in evs { cur.push(e.to_string()); rec(evs, cur, depth - 1, out); cur.pop(); }
+    }
+    rec(&evs, &mut vec![], if deep() { 4 } else { 3 }, &mut out);
+    out
+}
+
 // ------------------------------------------------------------------ family: race (real threads; schedule dependent: a clean run proves nothing, a failing run is a real lost update)
 fn scenario_race(sc: &str) -> Result<Violations, String> {
     // sc = "<threads>x<increments per thread>": the threads increment ONE key of one database concurrently; every increment is acknowledged, so none may be lost
@@ -1334,14 +1393,15 @@ fn families() -> Vec<(&'static str, fn() -> Vec<String>, fn(&str) -> Result<Viol
          ("permchange", all_permchange_scenarios, scenario_permchange),
          ("httpserver", all_httpserver_scenarios, scenario_httpserver),
          ("tcpserver", all_tcpserver_scenarios, scenario_tcpserver),
-         ("race", all_race_scenarios, scenario_race)]
+         ("race", all_race_scenarios, scenario_race),
+         ("oplogdisk", all_oplogdisk_scenarios, scenario_oplogdisk)]
 }
 /// the properties whose clause labels a family can report (every family reports C10.safety when a call panics, so C10 runs them all)
 fn family_props(fam: &str) -> &'static [&'static str] {
     match fam {
         "store" => &["C01", "C02", "C03", "C08"], "strategy" => &["C02", "C13", "C19"], "pending" => &["C15"], "ids" => &["C16"], "keymap" => &["C16"],
         "oplog" => &["C12"], "session" => &["C01", "C08", "C09"], "permchange" => &["C09"], "arbiter" => &["C13"], "watch" => &["C03"], "lines" => &[], "flood" => &[],
-        "connections" => &["C17"], "snapshot" => &["C01", "C06"], "resync" => &["C05"], "election" => &["C07"], "http" => &["C20"], "httpserver" => &["C08", "C09", "C17", "C20"], "tcpserver" => &["C03", "C17"], "race" => &["C01", "C02"],
+        "connections" => &["C17"], "snapshot" => &["C01", "C06"], "resync" => &["C05"], "election" => &["C07"], "http" => &["C20"], "httpserver" => &["C08", "C09", "C17", "C20"], "tcpserver" => &["C03", "C17"], "race" => &["C01", "C02"], "oplogdisk" => &["C16"],
         _ => &[],
     }
 }
@@ -1354,6 +1414,13 @@ fn main() {
         let d = format!("/var/tmp/verif-replay-data/{}", std::process::id());
         std::fs::create_dir_all(&d).unwrap();
         std::env::set_var("NUN_DBS_DIR", &d);
+    }
+    // scratch data directories of earlier runs are not needed once their process has ended
+    if let Ok(rd) = std::fs::read_dir("/var/tmp/verif-replay-data") {
+        for e in rd.flatten() {
+            let name = e.file_name().into_string().unwrap_or_default();
+            if name != std::process::id().to_string() && !std::path::Path::new(&format!("/proc/{}", name)).exists() { let _ = std::fs::remove_dir_all(e.path()); }
+        }
     }
     let a: Vec<String> = std::env::args().collect();
     if a.len() < 3 { eprintln!("usage: search <label> | run <label> <family:scenario> | selftest"); std::process::exit(2); }
